@@ -77,7 +77,32 @@ def t_seeds():
 GEN = {"checks": t_checks, "findings": t_findings, "seeds": t_seeds}
 
 
+def t_neutral():
+    rp = os.path.join(VERIF, "neutral", "RESULTS.json")
+    res = json.load(open(rp)) if os.path.exists(rp) else {}
+    cp = os.path.join(VERIF, "neutral", "CROSS.json")
+    cross = json.load(open(cp)) if os.path.exists(cp) else {}
+    rows = ["| behaviour-preserving change | kind / what it edits | its property's check (quick tier) | other checks run on it |",
+            "|-----------------------------|----------------------|-----------------------------------|------------------------|"]
+    for name in sorted(os.listdir(os.path.join(VERIF, "neutral"))):
+        mp = os.path.join(VERIF, "neutral", name, "meta.json")
+        if not os.path.exists(mp):
+            continue
+        meta = json.load(open(mp))
+        r = res.get(name, {})
+        verdict = "silent (exit 0)" if r.get("silent") else ("not run" if not r else f"exit {r.get('exit')}: " + ", ".join((r.get("violations") or [u[0] for u in r.get("undecided", [])])[:3]))
+        others = sorted((k.split("|")[1], v["exit"]) for k, v in cross.items() if k.split("|")[0] == name)
+        otxt = ", ".join(f"{p}: {'silent' if e == 0 else 'exit ' + str(e)}" for p, e in others) or "—"
+        txt = (str(meta.get("title", ""))[:160] + " (" + str(meta.get("kind", ""))[:60] + ")").replace("|", "/").replace("\n", " ")
+        rows.append(f"| {name} | {txt} | {verdict} | {otxt} |")
+    n = sum(1 for v in res.values() if v.get("silent"))
+    rows.append("")
+    rows.append(f"{n} of {len(res)} changes leave their property's check silent; {sum(1 for v in cross.values() if v['exit'] == 0)} of {len(cross)} cross-property runs are silent.")
+    return "\n".join(rows)
+
+
 def main():
+    GEN["neutral"] = t_neutral
     p = os.path.join(VERIF, "DESIGN.md")
     s = open(p).read()
     for name, fn in GEN.items():
